@@ -12,43 +12,43 @@ open Gen
 
 theorem Tie_label_len (f) (h : labelLenFact = some f) :
     f = ((Label.six 0 0 0 0 0 0).len, (Label.three 0 0 0).len, Label.broadcast.len, Label.reuse.len) := by
-  simp only [labelLenFact, Option.some.injEq] at h; subst h; rfl
+  unfold labelLenFact at h; cases h <;> rfl
 
 theorem Tie_labelType_len (f) (h : labelTypeLenFact = some f) :
     f = (LabelType.six.len, LabelType.three.len, LabelType.broadcast.len, LabelType.reuse.len) := by
-  simp only [labelTypeLenFact, Option.some.injEq] at h; subst h; rfl
+  unfold labelTypeLenFact at h; cases h <;> rfl
 
 theorem Tie_header_kind (f) (h : headerKindFact = some f) :
     f = (startEndBits .complete, startEndBits .first, startEndBits .inter, startEndBits .end_) := by
-  simp only [headerKindFact, Option.some.injEq] at h; subst h; rfl
+  unfold headerKindFact at h; cases h <;> rfl
 
 theorem Tie_header_labelType (f) (h : headerLabelTypeFact = some f) :
     f = (labelTypeBits .six, labelTypeBits .three, labelTypeBits .broadcast, labelTypeBits .reuse) := by
-  simp only [headerLabelTypeFact, Option.some.injEq] at h; subst h; rfl
+  unfold headerLabelTypeFact at h; cases h <;> rfl
 
 theorem Tie_ext_len (f) (h : extLenFact = some f) (id : Nat) (d : Bytes) :
     (⟨id, .data2, d⟩ : Ext).len = f.1 + PROTOCOL_LEN ∧ (⟨id, .data4, d⟩ : Ext).len = f.2.1 + PROTOCOL_LEN ∧
     (⟨id, .data6, d⟩ : Ext).len = f.2.2.1 + PROTOCOL_LEN ∧ (⟨id, .data8, d⟩ : Ext).len = f.2.2.2.1 + PROTOCOL_LEN ∧
     (⟨id, .noData, d⟩ : Ext).len = f.2.2.2.2 + PROTOCOL_LEN := by
-  simp only [extLenFact, Option.some.injEq] at h; subst h; simp [Ext.len]
+  unfold extLenFact at h; cases h <;> simp [Ext.len]
 
 theorem Tie_enc_new (f) (h : encNewFact = some f) : f = Enc.new := by
-  simp only [encNewFact, Option.some.injEq] at h; subst h; rfl
+  unfold encNewFact at h; cases h <;> rfl
 
 theorem Tie_enc_reset (f) (h : encResetFact = some f) (e : Enc) : f e = e.reset := by
-  simp only [encResetFact, Option.some.injEq] at h; subst h; rfl
+  unfold encResetFact at h; cases h <;> rfl
 
 theorem Tie_enc_disable (f) (h : encDisableFact = some f) (e : Enc) : f e = e.disable := by
-  simp only [encDisableFact, Option.some.injEq] at h; subst h; rfl
+  unfold encDisableFact at h; cases h <;> rfl
 
 theorem Tie_enc_enable (f) (h : encEnableFact = some f) (e : Enc) : f e = e.enable := by
-  simp only [encEnableFact, Option.some.injEq] at h; subst h; rfl
+  unfold encEnableFact at h; cases h <;> rfl
 
 theorem Tie_enc_enableMax (f) (h : encEnableMaxFact = some f) (e : Enc) (n : Nat) : f e n = e.enableMax n := by
-  simp only [encEnableMaxFact, Option.some.injEq] at h; subst h; rfl
+  unfold encEnableMaxFact at h; cases h <;> rfl
 
 theorem Tie_mem_capacity (f) (h : memCapMarginFact = some f) (n sz : Nat) : (Mem.new n sz).cap = n + f := by
-  simp only [memCapMarginFact, Option.some.injEq] at h; subst h; rfl
+  unfold memCapMarginFact at h; cases h <;> rfl
 
 #print axioms Tie_label_len
 #print axioms Tie_enc_disable
